@@ -790,3 +790,73 @@ package calendar
 //@     assert(ec.GetMonthDiShi() == CHANG_SHENG[diShiIndex(dg, l.monthZhiIndexExact)])
 //@     assert(ec.GetTimeDiShi() == CHANG_SHENG[diShiIndex(dg, l.timeZhiIndex)])
 //@     assert(ec.GetDayDiShi() == CHANG_SHENG[diShiIndex(dg, dz)])
+
+//@ # ================================================================ C16: nine stars
+//@ # year star: (2026 - pillar year) mod 9 (0-based; 2024 -> 2 = star three), for the pillar year of each convention
+//@ # position in the 60-cycle of the pillar (g, z) with g = n mod 10, z = n mod 12 is n mod 60 (the library finds it by
+//@ # scanning the JIA_ZI table for the concatenated name)
+//@ lemma jiaZiOfCycle(n int) [C16 C12]
+//@   requires 0 <= n && n <= 59
+//@   ensures LunarUtil.GetJiaZiIndex(LunarUtil.GAN[modf(n, 10)+1]+LunarUtil.ZHI[modf(n, 12)+1]) == n
+//@   split n in 0..59
+
+//@ # the library's year-star arithmetic (60-cycle position, the three 60-year eras) is the plain rule (2026 - year) mod 9
+//@ spec func yearStarCode(py int) int
+//@   = ite(modf(62+3*modf(divf(py+2696, 60), 3)-(modf(py-4, 60)+1), 9) == 0, 8, modf(62+3*modf(divf(py+2696, 60), 3)-(modf(py-4, 60)+1), 9)-1)
+
+//@ lemma yearStarArith(py int) [C16]
+//@   requires 0 <= py && py <= 10000
+//@   ensures yearStarCode(py) == modf(2026-py, 9)
+//@   split modf(py, 9) in 0..8
+
+//@ # The year star itself is not proved end to end (the 60-cycle scan combined with the era arithmetic does not
+//@ # discharge within the budget); what is proved: the scan finds the cycle position of the New-Year pillar, and the
+//@ # era arithmetic on a pillar year equals the plain rule (lemma yearStarArith). The composition for the three
+//@ # conventions is executed by the bounded stand-in nine_star.
+//@ ghost func yearStarParts(l *Lunar) [C16]
+//@   body
+//@     jiaZiOfCycle(modf(l.year-4, 60))
+//@     assert(LunarUtil.GetJiaZiIndex(l.GetYearInGanZhi()) == modf(l.year-4, 60))
+//@     a := l.GetYearNineStarBySect(1)
+//@     assert(0 <= a.index && a.index <= 8)
+
+//@ # month star: eight-white (7) in the yin month of a zi/wu/mao/you year, then minus one per month branch
+//@ spec func monthStar(yz int, mz int) int
+//@   = modf(25-3*modf(yz, 3)-modf(mz-2, 12), 9)
+
+//@ ghost func monthStarRule(l *Lunar) [C16]
+//@   body
+//@     assert(l.GetMonthNineStarBySect(1).index == monthStar(l.yearZhiIndex, l.monthZhiIndex))
+//@     assert(l.GetMonthNineStarBySect(2).index == monthStar(l.yearZhiIndexByLiChun, l.monthZhiIndex))
+//@     assert(l.GetMonthNineStarBySect(3).index == monthStar(l.yearZhiIndexExact, l.monthZhiIndexExact))
+//@     assert(l.GetMonthNineStar().index == monthStar(l.yearZhiIndexByLiChun, l.monthZhiIndex))
+
+//@ # the month star steps back by one at each Jie, including across Lichun where the year branch advances
+//@ lemma monthStarStep(yz int, mz int) [C16]
+//@   requires 0 <= yz && yz <= 11 && 0 <= mz && mz <= 11
+//@   ensures implies(mz != 1, monthStar(yz, modf(mz+1, 12)) == modf(monthStar(yz, mz)-1, 9))
+//@   ensures implies(mz == 1, monthStar(modf(yz+1, 12), 2) == modf(monthStar(yz, 1)-1, 9))
+//@   ensures 0 <= monthStar(yz, mz) && monthStar(yz, mz) <= 8
+
+//@ # hour star: ascending from the winter solstice to the summer solstice and from the December solstice on,
+//@ # descending otherwise; start value by the day branch's group; one step per two-hour slot in that direction
+//@ spec func hourAsc(l *Lunar) bool
+//@   = (!dayBefore(l.solar, jqs(l, 1)) && dayBefore(l.solar, jqs(l, 13))) || !dayBefore(l.solar, jqs(l, 25))
+//@ spec func hourStart(dz int, asc bool) int
+//@   = ite(modf(dz, 3) == 0, ite(asc, 0, 8), ite(modf(dz, 3) == 1, ite(asc, 3, 5), ite(asc, 6, 2)))
+
+//@ ghost func hourStarRule(l *Lunar) [C16]
+//@   body
+//@     a := l.GetTimeNineStar()
+//@     assert(0 <= a.index && a.index <= 8)
+//@     assert(a.index == modf(ite(hourAsc(l), hourStart(l.dayZhiIndex, true)+l.timeZhiIndex, hourStart(l.dayZhiIndex, false)-l.timeZhiIndex), 9))
+
+//@ # every naming system indexes the same star
+//@ ghost func starNames(n *NineStar) [C16]
+//@   body
+//@     assert(n.GetNumber() == NUMBER[n.index] && n.GetColor() == COLOR[n.index] && n.GetWuXing() == WU_XING[n.index] && n.GetPosition() == POSITION[n.index])
+//@     assert(n.GetNameInXuanKong() == NAME_XUAN_KONG[n.index] && n.GetNameInBeiDou() == NAME_BEI_DOU[n.index] && n.GetNameInQiMen() == NAME_QI_MEN[n.index] && n.GetNameInTaiYi() == NAME_TAI_YI[n.index])
+//@     assert(n.GetLuckInQiMen() == LUCK_QI_MEN[n.index] && n.GetLuckInXuanKong() == LUCK_XUAN_KONG[n.index] && n.GetYinYangInQiMen() == YIN_YANG_QI_MEN[n.index] && n.GetTypeInTaiYi() == TYPE_TAI_YI[n.index])
+//@     assert(n.GetBaMenInQiMen() == BA_MEN_QI_MEN[n.index] && n.GetSongInTaiYi() == SONG_TAI_YI[n.index] && n.GetIndex() == n.index)
+
+//@ # The day star (nearest-jiazi-day rule around both solstices) is executed by the bounded stand-in nine_star.
